@@ -36,6 +36,9 @@ impl LieLog {
 
 pub struct LyingBuf {
     data: Vec<u8>,
+    /// a separate tiny allocation: "shorter" answers come from here, so that a consumer that combines the
+    /// pointer of one chunk() call with the length of another leaves this block (visible to ASan / Miri)
+    alt: Box<[u8]>,
     pos: usize,
     script: Rc<Vec<u8>>,
     budget: usize,
@@ -44,7 +47,9 @@ pub struct LyingBuf {
 }
 impl LyingBuf {
     pub fn new(n: usize, script: Rc<Vec<u8>>, log: Rc<LieLog>, vectored: bool) -> Self {
-        LyingBuf { data: (0..n).map(|i| (i as u8).wrapping_mul(3) | 1).collect(), pos: 0, script, budget: 400, log, vectored }
+        let data: Vec<u8> = (0..n).map(|i| (i as u8).wrapping_mul(3) | 1).collect();
+        let alt: Box<[u8]> = data.iter().take(1).copied().collect::<Vec<u8>>().into_boxed_slice();
+        LyingBuf { data, alt, pos: 0, script, budget: 400, log, vectored }
     }
     fn code(&self) -> u8 {
         let i = self.log.calls.get();
@@ -78,7 +83,13 @@ impl Buf for LyingBuf {
         self.log.tick(!matches!(c, 0 | 5 | 7));
         let rest = &self.data[self.pos..];
         match c {
-            1 => &rest[..rest.len().saturating_sub(1)],
+            1 => {
+                if rest.len() > 1 {
+                    &self.alt[..]
+                } else {
+                    &rest[..rest.len().saturating_sub(1)]
+                }
+            }
             2 => rest,
             3 => &rest[..0],
             4 => &rest[..rest.len().min(1)],
